@@ -114,7 +114,6 @@ def run_case(task):
         lay, keys = build_layout(I, lay_spec, line_specs, attrs)
         holder['lay'] = lay
         holder['keys'] = keys
-        install_regex_stub(I)
         res = parse_layout_blocks(I, prog, lay)
         if res.v != 0:
             raise EngineError('layout did not parse into blocks')
